@@ -149,4 +149,35 @@ theorem C15_shard_eq_split (d : DS) (k i : Int) :
 example : (mkShard 3 (-1) (listSrc [.int 0, .int 1, .int 2, .int 3, .int 4, .int 5, .int 6])).map
     (·.len) = .ok (.ok 2) := by rfl
 
+/-! ### each example in exactly one shard -/
+
+/-- Every example belongs to exactly one shard: for every position `x < n` there is one and only
+    one shard number `i < k` whose section contains `x`. -/
+theorem C15_unique_shard (n k x : Nat) (hk : 1 ≤ k) (hx : x < n) :
+    ∃ i, (i < k ∧ x ∈ sectionIdx n k i) ∧ ∀ j, (j < k ∧ x ∈ sectionIdx n k j) → j = i := by
+  have hmem : x ∈ ((List.range k).map (sectionIdx n k)).flatten := by
+    rw [C15_sections_concat n k hk]; exact List.mem_range.mpr hx
+  obtain ⟨s, hs, hxs⟩ := List.mem_flatten.mp hmem
+  obtain ⟨i, hi, rfl⟩ := List.mem_map.mp hs
+  have hik : i < k := List.mem_range.mp hi
+  refine ⟨i, ⟨hik, hxs⟩, ?_⟩
+  rintro j ⟨hjk, hxj⟩
+  rcases Nat.lt_trichotomy i j with h | h | h
+  · exact absurd (C15_sections_disjoint n k i j hk h hjk x hxs x hxj) (Nat.lt_irrefl x)
+  · exact h.symm
+  · exact absurd (C15_sections_disjoint n k j i hk h hik x hxj x hxs) (Nat.lt_irrefl x)
+
+/-- No shard contains a position outside the dataset, and no position twice. -/
+theorem C15_section_in_range_nodup (n k i : Nat) (hk : 1 ≤ k) (hi : i < k) :
+    (∀ x ∈ sectionIdx n k i, x < n) ∧ (sectionIdx n k i).Nodup := by
+  constructor
+  · intro x hx
+    have h2 := (mem_sectionIdx.mp hx).2
+    have h3 : sectionStart n k (i + 1) ≤ sectionStart n k k := sectionStart_mono n k hi
+    rw [sectionStart_last n k hk] at h3
+    omega
+  · rw [C15_section_eq_range]; exact List.nodup_range' 
+
+example : ∃ i, (i < 3 ∧ 5 ∈ sectionIdx 10 3 i) := ⟨1, by decide⟩
+
 end LazyDs
